@@ -22,7 +22,7 @@ RULE = (
 )
 ASSUMPTIONS = [
     'the event table and jump table themselves are judged by C03 / C04; here only aggregation',
-    'rates(): the per-part jump counters come from the real Jumps.split (its conservation laws are C19)',
+    'rates(): the per-part jump counters come from the real Jumps.split (its conservation laws are C19); each part is recounted from its own transitions with the parent\'s minimal_residence through the real Transitions.jumps',
     'attempt frequency entering the activation energies is read from the real TrajectoryMetrics',
     'K2 (Transitions.matrix folds no-site events into the last row/column) is tolerated only when every deviating cell is explained by exactly that index wrap',
 ]
